@@ -130,7 +130,17 @@ func checkC08(c CtlCase, o *Obs) error {
 	for i, m := range model.Msgs {
 		lens[i] = len(m.Payload)
 	}
+	afterReadError = func(cn *websocket.Conn, i int) {
+		// a retrying application arms new read deadlines; "permanent" means permanent
+		switch i % 4 {
+		case 1:
+			cn.SetReadDeadline(time.Now().Add(time.Hour))
+		case 3:
+			cn.SetReadDeadline(time.Time{})
+		}
+	}
 	rt := RunReadP(conn, c.Reads, len(model.Msgs)+1, lens, 4, prog)
+	afterReadError = nil
 
 	// expected handler events in wire order
 	type want struct {
